@@ -116,7 +116,7 @@ def rrH : Handler := fun inp impl => do
     (List.range weights.size).all (fun t => implSeq.count t == targetShareFast ring start picks t)
   let tag := if !formsAgree then "model-forms-differ" else
     if N == weights.size then (if picks ≥ N then "plain-cycles" else "plain-partial")
-    else (if picks ≥ N then "weighted-cycles" else "weighted-partial")
+    else (if picks ≥ N then "weighted-cycles" else if start % N + picks > N then "weighted-wrap" else "weighted-partial")
   return ({ model := model, agree := agree, spec := spec, nontrivial := decide (picks ≥ 2), tag := tag } : Verdict).toJson
 
 /-! ### c06.redirect
@@ -220,9 +220,13 @@ def accH : Handler := fun inp impl => do
   let answers := (jsonArr ci "answers").toList
   let want := reqs.map (fun q => if accessDenied rules (accReqOf pools q) then 403 else 301)
   let got := answers.map (fun a => getNatD a "code")
-  let model := Json.mkObj [("codes", natsJson want)]
-  let agree := ci != panicJson && got == want
-  let isolated := answers.length == reqs.length && answers.all (fun a => getNatD a "code" == getNatD a "alone_code")
+  -- the TCP / gRPC entry points look at the remote address alone
+  let wantAddr := reqs.map (fun q => denyByIP rules (accReqOf pools q).remote)
+  let model := Json.mkObj [("codes", natsJson want), ("addr_denied", toJson wantAddr)]
+  let agree := ci != panicJson && got == want &&
+    answers.map (fun a => getBoolD a "addr_denied") == wantAddr && answers.map (fun a => getBoolD a "tcp_denied") == wantAddr
+  let isolated := answers.length == reqs.length && answers.all (fun a =>
+    getNatD a "code" == getNatD a "alone_code" && getBoolD a "addr_denied" == getBoolD a "alone_denied")
   let spec := isolated && agree
   let hasXff := reqs.any (fun q => !(getNats q "xff").isEmpty)
   let odd := reqs.any (fun q => getBoolD q "noport" || (accReqOf pools q).remote.isNone)
